@@ -41,7 +41,7 @@ class CoreHarness(Harness):
                  read_time=4, write_time=4, cl=2, cwl=None, RL=2, WL=0, K=2, window=0,
                  watch=None, banks=(0, 1), rows=(0, 1), cols=(0,), wes=None, queue_check=True, timing_mon=False,
                  refresh_mon=False, drivers=None, tzqcs=None, zqcs_period=None, rdphase=None, wrphase=None,
-                 req=None, settle=14)
+                 req=None, settle=14, wr_only=False, zq_mon=False)
         d.update(cfg); self.cfg = d
         for k, v in d.items(): setattr(self, k, v)
         nph = self.nphases
@@ -57,6 +57,9 @@ class CoreHarness(Harness):
         self.rdphase_v, self.wrphase_v = rdphase, wrphase
         timing = dict(self.timing or {})
         if self.tzqcs is not None: timing["tZQCS"] = self.tzqcs
+        self.clk_freq = 100e6
+        if self.module is not None:
+            timing = self._module_timing()
         zq = {}
         if self.zqcs_period is not None:
             zq = dict(clk_freq=float(self.zqcs_period), zqcs_freq=1.0)
@@ -79,6 +82,11 @@ class CoreHarness(Harness):
         timer = core.controller.refresher.timer
         self.timer_reg = self._find_timer(timer)
         if self.refresh: keep.append(self.timer_reg)
+        self.arbiters = []
+        if self.nports > 1:
+            self.arbiters = core.crossbar.verif_arbiters
+            assert len(self.arbiters) == self.nranks * (1 << self.bankbits)
+            keep += [a.grant for a in self.arbiters]
         self.c = c = fhdl.compile_sim(core, observe=obs, keep=keep)
         ii, oi = c.ii, c.oi
         self.i_valid = [ii[p.cmd.valid] for p in ports]; self.i_we = [ii[p.cmd.we] for p in ports]; self.i_addr = [ii[p.cmd.addr] for p in ports]
@@ -111,7 +119,7 @@ class CoreHarness(Harness):
             self.waddr = None; self.wlane = 0; self.wloc = None
         self.full_we = (1 << self.nlanes) - 1
         wes = self.wes if self.wes is not None else ([self.full_we, 1 << self.wlane, self.full_we & ~(1 << self.wlane)] if self.nlanes > 1 else [1])
-        alpha = [None] + [("R", ad) for ad in self.addrs]
+        alpha = [None] + ([] if self.wr_only else [("R", ad) for ad in self.addrs])
         for ad in self.addrs:
             if self.watch is not None and ad == self.waddr:
                 alpha += [("W", ad, t, we) for t in (0, 1) for we in wes]
@@ -120,12 +128,27 @@ class CoreHarness(Harness):
         self.alpha = alpha
         self.word_cache = {}
         # drivers: per port None (budgeted master over full alphabet) or dict(kind="adv", cmds=[...], gap=g) / dict(kind="victim")
-        self.drivers = self.drivers or [None] * self.nports
+        self.drivers = [self._resolve_driver(d) for d in (self.drivers or [None] * self.nports)]
         self._setup_timing()
         self.cov = {}
         self.idle_choice = tuple([None] * self.nports)
 
     # ------------------------------------------------------------------ helpers
+    def _resolve_driver(self, d):
+        if d is None: return None
+        d = dict(d)
+        def cmd(x):
+            if x is None: return None
+            op, li = x[0], x[1]
+            ad = self.addrs[li]
+            return ("R", ad) if op == "R" else ("W", ad, OTHER, self.full_we)
+        if d["kind"] == "adv":
+            d["cmds"] = tuple(cmd(x) for x in d["cmds"]) + ((None,) if d.get("idle") else ())
+        elif d["kind"] == "victim":
+            d["cmds_with_idle"] = (None,) + (tuple(cmd(x) for x in d["cmds"]) if d.get("cmds") else tuple(self.alpha[1:]))
+            d.setdefault("K", 1)
+        return d
+
     def _find_timer(self, timer):
         # the refresh timer's count register: found structurally (names are unreliable on py3.12): the only sync target of the timer module
         from migen.fhdl.tools import list_targets
@@ -145,10 +168,58 @@ class CoreHarness(Harness):
             self.word_cache[tag] = w
         return w
 
+    def _module_timing(self):
+        """TimingSettings through LiteDRAM's own SDRAMModule from a module description (synthetic numbers or a library class);
+        the requirements the monitor enforces are computed separately, straight from the datasheet numbers (_setup_timing)."""
+        import litedram.modules as lm
+        m = self.module
+        self.clk_freq = float(m["clk"])
+        rate = "1:%d" % self.nphases
+        if "lib" in m:
+            cls = getattr(lm, m["lib"])
+        else:
+            tech = m["tech"]; sp = m["speed"]
+            def tup(x): return tuple(x) if isinstance(x, list) else x
+            cls = type("VerifSyntheticModule", (lm.SDRAMModule,), dict(
+                memtype=self.memtype, nbanks=1 << self.bankbits, nrows=1 << self.rowbits, ncols=1 << self.colbits,
+                technology_timings=lm._TechnologyTimings(**{k: tup(v) for k, v in tech.items()}),
+                speedgrade_timings={"default": lm._SpeedgradeTimings(**{k: tup(v) for k, v in sp.items()})}))
+        self.mod = mod = cls(self.clk_freq, rate, speedgrade=m.get("speedgrade"))
+        assert mod.memtype == self.memtype
+        ts = mod.timing_settings
+        if m.get("trefi_override") is not None:
+            ts.tREFI = m["trefi_override"]       # C03 does not judge the refresh interval (C04/C16 do); keeps the timer near its minimum
+        if m.get("no_zqcs", True):
+            ts.tZQCS = None
+        return ts
+
     def _setup_timing(self):
         """Requirements in DRAM clocks for the timing monitor (C03).  Either explicit `req` (already in DRAM clocks), or derived
         from the TimingSettings given in controller cycles (synthetic configs: requirement = cycles*nphases is NOT used; see checks/c03)."""
         self.REQ = self.req
+        if self.module is not None and self.timing_mon:
+            from litedram.common import burst_lengths
+            mod = self.mod
+            tck = F(10 ** 9) / F(int(self.clk_freq) * self.nphases)          # DRAM clock period in ns
+            def need(name, key=None):
+                t = mod.get(name, key) if key else mod.get(name)
+                if t is None: return None
+                v = max(t.ck, math.ceil(F(repr(float(t.ns))) / tck))
+                return v or None
+            frm = getattr(mod.timing_settings, "fine_refresh_mode", None)
+            R = dict(tRCD=need("tRCD"), tRP=need("tRP"), tRAS=need("tRAS"), tRRD=need("tRRD"), tFAW=need("tFAW"), tCCD=need("tCCD"),
+                     tRFC=need("tRFC", frm), tZQCS=need("tZQCS") if self.T.tZQCS is not None else None)
+            tras, trp = mod.get("tRAS"), mod.get("tRP")
+            R["tRC"] = None if tras is None else max(tras.ck + trp.ck, math.ceil((F(repr(float(tras.ns))) + F(repr(float(trp.ns)))) / tck))
+            if self.memtype == "SDR":
+                burst_tail = 0                      # BL=1: data is sampled with the command; recovery counts from that clock
+            else:
+                cwl = self.cwl if self.cwl is not None else self.cl
+                burst_tail = cwl + burst_lengths[self.memtype] // 2
+            twr, twtr = need("tWR"), need("tWTR")
+            R["tWR"] = None if twr is None else burst_tail + twr
+            R["tWTR"] = None if twtr is None else burst_tail + twtr
+            self.REQ = {k: v for k, v in R.items() if v}
         if self.REQ:
             self.SAT = max(v for v in self.REQ.values() if v) + 1
 
@@ -283,8 +354,6 @@ class CoreHarness(Harness):
                     if hw != iswr or hrow != rows[b] or hcol != col:
                         raise Violation("dram.rdwr_mismatch", "%s bank %d row %d col %d but oldest request is %s row %d col %d" % ("WR" if iswr else "RD", b, rows[b], col, "WR" if hw else "RD", hrow, hcol), bank=b)
                     reqq[b] = reqq[b][1:]
-                    if a10 and self.ap and reqq[b] and reqq[b][0][1] == rows[b] and False:
-                        pass
                 if a10 and not self.ap: raise Violation("dram.unexpected_autoprecharge", "A10 set on RD/WR with auto-precharge disabled")
                 loc = (b, rows[b], col)
                 if newage is not None: self._t_col(agesd, newage, b, ph, iswr, a10)
@@ -375,8 +444,6 @@ class CoreHarness(Harness):
                     cmd = None
                     dr = self.drivers[k]
                     cool = dr.get("gap", 0) if dr else 0
-                else:
-                    pass
             elif cool: cool -= 1
             srv = False
             if O[self.o_wready[k]]:
@@ -390,21 +457,22 @@ class CoreHarness(Harness):
                     if got != lane_byte(self.wlane, exp):
                         self.report("data.read_mismatch", "port %d read byte %02x, expected %02x (last write accepted before this read)" % (k, got, lane_byte(self.wlane, exp)), port=k)
                     cov["rd_compared"] = cov.get("rd_compared", 0) + 1
-            outst = bool(wq) and not (cmd is not None and cmd[0] == "W" and len(wq) == 1) or bool(rq)
-            if k == 0:
-                if cmd is not None or (pend is None and ch[k] is not None and not acc): pass
-                if (pend is not None or ch[k] is not None): ev |= EV_VPEND
-                if acc: ev |= EV_VACC
-                if srv: ev |= EV_SRV0
-            elif k == 1:
-                if (pend is not None or ch[k] is not None): ev |= EV_P1PEND
-                if acc: ev |= EV_P1ACC
-                if srv: ev |= EV_SRV1
-            # outstanding *before* this cycle's service: accepted writes whose data strobe is due, reads not yet answered
-            pre_w = len(ports[k][2]); pre_r = len(ports[k][3])
-            if (pre_r or (pre_w and ports[k][0] is None)):
-                ev |= (EV_OUT0 if k == 0 else EV_OUT1 if k == 1 else 0)
-            if pend is not None or ch[k] is not None or pre_r or pre_w: anypend = True
+            offered = pend is not None or ch[k] is not None
+            # accepted commands not yet served at the start of this cycle
+            pre_r = len(ports[k][3]); pre_w = len(ports[k][2]) - (1 if (pend is not None and pend[0] == "W") else 0)
+            if k < 2:
+                sh = 8 * k if k else 0
+                if k == 0:
+                    if offered: ev |= EV_VPEND
+                    if acc: ev |= EV_VACC
+                    if pre_r or pre_w: ev |= EV_OUT0
+                    if srv: ev |= EV_SRV0
+                else:
+                    if offered: ev |= EV_P1PEND
+                    if acc: ev |= EV_P1ACC
+                    if pre_r or pre_w: ev |= EV_OUT1
+                    if srv: ev |= EV_SRV1
+            if offered or pre_r or pre_w: anypend = True
             if acc or srv: anyprog = True
             new_ports.append((cmd, bud, wq, rq, cool))
         if anypend: ev |= EV_ANYPEND
@@ -430,53 +498,56 @@ class CoreHarness(Harness):
         key = "tight:" + rule
         if v == req: self.cov[key] = self.cov.get(key, 0) + 1
         self.cov["armed:" + rule] = self.cov.get("armed:" + rule, 0) + 1
+        if v < self.SAT:
+            sk = "minslack:" + rule
+            if v - req < self.cov.get(sk, 1 << 30): self.cov[sk] = v - req
         if v < req:
-            self.report("timing." + rule, "%s: %d DRAM clocks, %d required" % (what, v, req), rule=rule, second=detail.get("second"), got=v, need=req)
+            self.report("timing." + rule, "%s: %d DRAM clocks, %d required" % (what, v, req), timing=rule, second=detail.get("second"), got=v, need=req)
 
     def _t_act(self, A, N, b, ph):
         self._need(A, N, ("pre", b), ph, "tRP", "PRE->ACT bank %d" % b, second="ACT")
         self._need(A, N, ("act", b), ph, "tRC", "ACT->ACT bank %d" % b, second="ACT")
-        self._need(A, N, "ref", ph, "tRFC", "REF->ACT", second="ACT")
-        self._need(A, N, "zq", ph, "tZQCS", "ZQCS->ACT", second="ACT")
-        self._need(A, N, "actany", ph, "tRRD", "ACT->ACT (other bank)", second="ACT")
+        self._need(A, N, ("ref", -1), ph, "tRFC", "REF->ACT", second="ACT")
+        self._need(A, N, ("zq", -1), ph, "tZQCS", "ZQCS->ACT", second="ACT")
+        self._need(A, N, ("actany", -1), ph, "tRRD", "ACT->ACT (other bank)", second="ACT")
         if self.REQ.get("tFAW"):
-            v = self._age(A, N, "act4", ph)
+            v = self._age(A, N, ("act4", -1), ph)
             self.cov["armed:tFAW"] = self.cov.get("armed:tFAW", 0) + 1
             if v == self.REQ["tFAW"]: self.cov["tight:tFAW"] = self.cov.get("tight:tFAW", 0) + 1
-            if v < self.REQ["tFAW"]: self.report("timing.tFAW", "5th ACT %d DRAM clocks after the 1st, %d required" % (v, self.REQ["tFAW"]), rule="tFAW", second="ACT", got=v, need=self.REQ["tFAW"])
+            if v < self.REQ["tFAW"]: self.report("timing.tFAW", "5th ACT %d DRAM clocks after the 1st, %d required" % (v, self.REQ["tFAW"]), timing="tFAW", second="ACT", got=v, need=self.REQ["tFAW"])
             # shift ACT history: act4 <- act3 <- act2 <- act1 <- now
-            for a, bname in (("act4", "act3"), ("act3", "act2"), ("act2", "act1")):
+            for a, bname in ((("act4", -1), ("act3", -1)), (("act3", -1), ("act2", -1)), (("act2", -1), ("act1", -1))):
                 v = N.get(bname, A.get(bname))
                 if v is None:
                     A.pop(a, None); N.pop(a, None)
                 else:
                     N[a] = v
-            N["act1"] = -ph
-        N[("act", b)] = -ph; N["actany"] = -ph
+            N[("act1", -1)] = -ph
+        N[("act", b)] = -ph; N[("actany", -1)] = -ph
 
     def _t_pre(self, A, N, b, ph, was_open, prea):
         sec = "PREA" if prea else "PRE"
         if was_open:
             self._need(A, N, ("act", b), ph, "tRAS", "ACT->%s bank %d" % (sec, b), second=sec)
             self._need(A, N, ("wr", b), ph, "tWR", "WR->%s bank %d (CWL+BL/2+tWR)" % (sec, b), second=sec)
-        self._need(A, N, "ref", ph, "tRFC", "REF->%s" % sec, second=sec)
-        self._need(A, N, "zq", ph, "tZQCS", "ZQCS->%s" % sec, second=sec)
+        self._need(A, N, ("ref", -1), ph, "tRFC", "REF->%s" % sec, second=sec)
+        self._need(A, N, ("zq", -1), ph, "tZQCS", "ZQCS->%s" % sec, second=sec)
         # a precharge of an already-precharged bank (PREA by the refresher) does not restart tRP for that bank if it is older
         if was_open or self._age(A, N, ("pre", b), ph) >= self.SAT:
             N[("pre", b)] = -ph
-        if prea: N["prea"] = -ph
+        if prea: N[("prea", -1)] = -ph
 
     def _t_col(self, A, N, b, ph, iswr, ap):
         sec = "WR" if iswr else "RD"
         self._need(A, N, ("act", b), ph, "tRCD", "ACT->%s bank %d" % (sec, b), second=sec)
-        self._need(A, N, "col", ph, "tCCD", "column->column", second=sec)
-        self._need(A, N, "ref", ph, "tRFC", "REF->%s" % sec, second=sec)
-        self._need(A, N, "zq", ph, "tZQCS", "ZQCS->%s" % sec, second=sec)
+        self._need(A, N, ("col", -1), ph, "tCCD", "column->column", second=sec)
+        self._need(A, N, ("ref", -1), ph, "tRFC", "REF->%s" % sec, second=sec)
+        self._need(A, N, ("zq", -1), ph, "tZQCS", "ZQCS->%s" % sec, second=sec)
         if not iswr:
-            self._need(A, N, "wrany", ph, "tWTR", "WR->RD (CWL+BL/2+tWTR)", second="RD")
-        N["col"] = -ph
+            self._need(A, N, ("wrany", -1), ph, "tWTR", "WR->RD (CWL+BL/2+tWTR)", second="RD")
+        N[("col", -1)] = -ph
         if iswr:
-            N[("wr", b)] = -ph; N["wrany"] = -ph
+            N[("wr", b)] = -ph; N[("wrany", -1)] = -ph
         if ap:
             # auto-precharge: the bank precharges itself no earlier than ACT+tRAS and (after a write) WR+CWL+BL/2+tWR; the
             # least demanding reading is used: the internal precharge happens at the earliest instant the datasheet allows.
@@ -492,15 +563,15 @@ class CoreHarness(Harness):
     def _t_ref(self, A, N, ph):
         for b in range(self.nb):
             self._need(A, N, ("pre", b), ph, "tRP", "PRE->REF bank %d" % b, second="REF")
-        self._need(A, N, "ref", ph, "tRFC", "REF->REF", second="REF")
-        self._need(A, N, "zq", ph, "tZQCS", "ZQCS->REF", second="REF")
-        N["ref"] = -ph
+        self._need(A, N, ("ref", -1), ph, "tRFC", "REF->REF", second="REF")
+        self._need(A, N, ("zq", -1), ph, "tZQCS", "ZQCS->REF", second="REF")
+        N[("ref", -1)] = -ph
 
     def _t_zq(self, A, N, ph):
         for b in range(self.nb):
             self._need(A, N, ("pre", b), ph, "tRP", "PRE->ZQCS bank %d" % b, second="ZQCS")
-        self._need(A, N, "ref", ph, "tRFC", "REF->ZQCS", second="ZQCS")
-        N["zq"] = -ph
+        self._need(A, N, ("ref", -1), ph, "tRFC", "REF->ZQCS", second="ZQCS")
+        N[("zq", -1)] = -ph
 
     # ------------------------------------------------------------------ refresh monitor (C04)
     def _refresh_mon(self, refm, saw_ref, saw_prea, saw_zq, saw_act):
@@ -518,6 +589,14 @@ class CoreHarness(Harness):
             self.cov["ref_owed_max"] = max(self.cov.get("ref_owed_max", 0), owed + 1)
             if prea_age >= 90:
                 self.report("refresh.no_precharge_all", "REF not preceded by a precharge-all")
+        if self.zq_mon:
+            bound = self.zqcs_period + (self.postponing + 1) * self.trefi + 60
+            if saw_zq:
+                self.cov["zq_interval_max"] = max(self.cov.get("zq_interval_max", 0), zqc); zqc = 0
+            elif zqc <= bound:
+                zqc += 1
+                if zqc > bound:
+                    self.report("refresh.zqcs_missing", "no ZQCS for %d cycles (period %d cycles, refresh interval %d, postponing %d)" % (zqc, self.zqcs_period, self.trefi, self.postponing), kind="zqcs_period")
         if owed > self.postponing + self.ref_slack:
             self.report("refresh.starved", "%d refreshes owed (postponing=%d)" % (owed, self.postponing), owed=owed)
             owed = self.postponing + self.ref_slack
@@ -526,7 +605,25 @@ class CoreHarness(Harness):
             owed = -self.postponing
         return (period, owed, grp, prea_age, zqc)
 
-    ref_slack = 1
+    ref_slack = 0
+
+    def lasso_detail(self, label, cycle_states, loop_choices):
+        """Fingerprint of a starvation lasso: which port waits, for which bank, and whether in *every* state of the cycle that
+        bank's crossbar arbiter is parked on another port (the known crossbar re-arbitration finding) - anything else is new."""
+        d = {"obligation": label}
+        if not self.arbiters: return d
+        k = 1 if "port 1" in label else 0
+        banks = set(); held = True
+        for (S, E) in cycle_states:
+            pend = E[0][k][0]
+            if pend is None:
+                held = False; continue
+            b = self.loc_of[pend[1]][0]; banks.add(b)
+            g = self.c.get(S, self.arbiters[b].grant)
+            if g == k: held = False
+        d["waiting_port"] = k
+        d["cause"] = "bank_arbiter_parked_on_other_port" if (held and len(banks) == 1) else "other"
+        return d
 
     def coverage(self):
         return dict(sorted(self.cov.items()))
